@@ -157,6 +157,11 @@ THOROUGH = {
     "C07": "./check C07 thorough && ./fuzz/run.sh sink 300 C07",
     "C08": "./check C08 thorough && ./fuzz/run.sh sink 300 C08",
     "C13": "./check C13 thorough && ./fuzz/run.sh sink 300 C13",
+    "C04": "./check C04 thorough && ./fuzz/run.sh disp 300 C04",
+    "C11": "./check C11 thorough && ./fuzz/run.sh disp 300 C11",
+    "C12": "./check C12 thorough && ./fuzz/run.sh disp 300 C12",
+    "C16": "./check C16 thorough && ./fuzz/run.sh disp 300 C16",
+    "C17": "./check C17 thorough && ./fuzz/run.sh disp 300 C17",
 }
 
 
